@@ -8,7 +8,8 @@ limit+1, limit+2 for limits 1..5, 100, 200 with the deep branch first / middle /
 and array / object / mixed links; chains 1 000, 6 000 and 60 000 levels deep for limits 1, 5,
 100; cyclic structures (self-loop through an array,
 through an object, 2- and 3-cycles mixing both, a cycle below a finite prefix,
-branching cycles for small limits).  In nondeterministic mode every input is explored
+branching cycles for small limits) and acyclic structures whose containers are shared
+(reachable by several paths), which are ordinary data.  In nondeterministic mode every input is explored
 over its complete choice tree when the limit is <= 4 (<= 5 thorough) and with <= 2
 deviations from the all-zero answer sequence otherwise.
 Oracle: nesting(d) = number of containers on the deepest root-to-leaf path.  nesting <=
@@ -226,6 +227,13 @@ def make_doc(spec):
         return positioned(deep, spec["where"]), spec["n"] + 1
     if k == "cycle":
         return cyclic(spec["name"]), None
+    if k == "dag":
+        # shared, non-cyclic containers: the same object is reachable by several paths
+        leaf = [7] if spec["shape"] != "empty" else []
+        mid = {"p": leaf, "q": leaf}
+        if spec["shape"] == "wide":
+            return [mid, mid, leaf, {"r": mid}], 4
+        return {"a": mid, "b": [mid, leaf]}, 4
     raise KeyError(k)
 
 
@@ -341,6 +349,7 @@ def shards(tier):
     for limit in (1, 5, 100):
         for n in (1000, 6000, 60000):
             out.append({"part": "verydeep", "limit": limit, "n": n, "tier": tier})
+    out.append({"part": "dag", "tier": tier})
     for name in CYCLES + BRANCHING:
         for limit in ((1, 2, 3, 4) if name in BRANCHING else (1, 2, 3, 4, 5, 100)):
             out.append({"part": "cycle", "name": name, "limit": limit, "tier": tier})
@@ -378,6 +387,12 @@ def run_shard(desc):
                                 continue
                             for nd in (False, True):
                                 do(spec, limit, nd, "$..*", abs(nest - limit) <= 1)
+        elif desc["part"] == "dag":
+            for shape in ("deep", "wide", "empty"):
+                for limit in (3, 4, 5, 100):
+                    for nd in (False, True):
+                        for q in ("$..*", "$..p", "$..[0]"):
+                            do({"kind": "dag", "shape": shape}, limit, nd, q, True)
         elif desc["part"] == "verydeep":
             # data nested thousands of levels below the limit: still JSONPathRecursionError, never
             # the interpreter's RecursionError (no reference result needed: the input is over the limit)
